@@ -1,14 +1,35 @@
 #!/bin/sh
-# Build the framework from files on disk only (offline): Lean library + driver, harness for every feature set.
+# Build the framework from files on disk only (offline): Lean library (every Props module of the registered
+# checks) + driver, and the Rust harness for every feature set the checks use.
 set -e
 cd "$(dirname "$0")"
 export CARGO_NET_OFFLINE=true
-(cd lean && lake build driver LexVerif.Props.C01 LexVerif.Props.C02 LexVerif.Props.C04 LexVerif.Props.C05 LexVerif.Props.C18 LexVerif.Props.RoundNE LexVerif.Props.TablesParse) 2>&1 | tail -3
 python3 - <<'PY'
-import sys
+import glob, importlib, os, subprocess, sys
 sys.path.insert(0, ".")
 import vlib
-sets = ["default", "compact", "pow2", "radix", "format", "radix+format", "compact+radix+format", "compact+radix", "nostd"]
-vlib.build_many(sets, "release")
-print("harness built for", len(sets), "feature sets")
+mods, sets = set(["driver"]), set()
+for p in sorted(glob.glob("props/C[0-9][0-9].py")):
+    m = importlib.import_module("props." + os.path.basename(p)[:-3])
+    mods.update(m.LEAN_MODULES)
+    for tier in ("quick",):
+        sets.update(m.feature_sets(tier))
+print("lake build", len(mods), "targets")
+rc = subprocess.call(["lake", "build"] + sorted(mods), cwd="lean", stdout=subprocess.DEVNULL)
+if rc != 0:
+    subprocess.call(["lake", "build"] + sorted(mods), cwd="lean")
+    sys.exit(1)
+sets = sorted(sets)
+print("cargo build for", sets)
+for i in range(0, len(sets), 4):
+    vlib.build_many(sets[i:i + 4], "release")
+# debug-assertion profile for the properties that ask for it
+dbg = set()
+for p in sorted(glob.glob("props/C[0-9][0-9].py")):
+    m = importlib.import_module("props." + os.path.basename(p)[:-3])
+    if "dbg" in getattr(m, "PROFILES", {}).get("quick", []):
+        dbg.update(m.feature_sets("quick"))
+if dbg:
+    vlib.build_many(sorted(dbg), "dbg")
+print("setup done")
 PY
